@@ -16,6 +16,8 @@ def eye(n, m=None, device=None, requires_grad=None):
     :return: a 2D :class:`Tensor`
     """
 
+    if m is None:
+        m = n
     c1 = torch.eye(n, m)
     c2 = torch.eye(m, m)
     return tn.Tensor(
